@@ -200,6 +200,29 @@ pub fn eval(case: &Case) -> Verdict {
     Verdict::Pass(obs)
 }
 
+/// Every two-piece cut of a short valid stream (a coincidence between a read boundary and some
+/// internal length can sit at exactly one offset).
+fn eval_every_cut(case: &Case) -> Verdict {
+    let stream = build_stream(&case.source);
+    let mut obs = Obs::new();
+    if stream.len() > 900 {
+        obs.class("stream-too-long-for-every-cut");
+        return Verdict::Pass(obs);
+    }
+    let (base_msgs, base_err) = lib_decode(&stream, &Partition::Whole);
+    for k in 1..stream.len() {
+        let (msgs, err) = lib_decode(&stream, &Partition::At(vec![k as u32]));
+        if let Some(d) = first_difference(&msgs, &base_msgs) {
+            vfail!("cutting the {}-byte stream after byte {} changes the messages: {}", stream.len(), k, d);
+        }
+        vensure!(err.is_some() == base_err.is_some(), "cutting the {}-byte stream after byte {} ends with {:?}, one-call delivery with {:?}", stream.len(), k, err, base_err);
+    }
+    obs.count("cuts-tried", stream.len().saturating_sub(1) as u64);
+    obs.class_if(base_msgs.iter().any(|m| m.payload.len() > 128), "multi-chunk-message");
+    obs.nontrivial = base_msgs.len() >= 2 && stream.len() >= 40;
+    Verdict::Pass(obs)
+}
+
 fn source() -> BoxedStrategy<Source> {
     prop_oneof![
         4 => gen::msg_seq(SeqCfg { max_ops: 10, len_cap: 1500, ..SeqCfg::DEFAULT }).prop_map(Source::Library),
@@ -392,7 +415,7 @@ pub fn spec() -> PropSpec {
     PropSpec {
         id: "C15",
         level: "exploration",
-        rule: "byte streams: library-serialized sequences, RefChunkEnc foreign streams, raw bytes, and mutants of them (byte flips, overwritten bytes from a header-byte pool, 24-bit header fields replaced by boundary values, truncations, duplicated / deleted ranges); sub-check 'deserializer-kilobyte-chunks' uses chunk sizes 4095..65536 and messages up to 70000 bytes; sub-checks '…-flood' deliver 1000..6000 copies of one small message (acknowledgement, ping, window size, one audio byte, empty video, unknown type, abort) plus a short tail; each stream is run under four partitions (one call, byte by byte, two generated ones, optionally with empty polls) through fresh deserializers (and, in the session sub-checks, fresh sessions with the same preparatory history); message sequences, error position and error variant must be identical. Non-trivial = >= 2 messages delivered and a cut strictly inside a chunk header in one generated partition; distinct = distinct case",
+        rule: "byte streams: library-serialized sequences, RefChunkEnc foreign streams, raw bytes, and mutants of them (byte flips, overwritten bytes from a header-byte pool, 24-bit header fields replaced by boundary values, truncations, duplicated / deleted ranges); sub-check 'deserializer-kilobyte-chunks' uses chunk sizes 4095..65536 and messages up to 70000 bytes; sub-check 'deserializer-every-two-piece-cut' tries EVERY cut position of short valid streams; sub-checks '…-flood' deliver 1000..6000 copies of one small message (acknowledgement, ping, window size, one audio byte, empty video, unknown type, abort) plus a short tail; each stream is run under four partitions (one call, byte by byte, two generated ones, optionally with empty polls) through fresh deserializers (and, in the session sub-checks, fresh sessions with the same preparatory history); message sequences, error position and error variant must be identical. Non-trivial = >= 2 messages delivered and a cut strictly inside a chunk header in one generated partition; distinct = distinct case",
         assumptions: vec![
             "error position is judged at the granularity the API has: messages returned before the error, and the error variant",
             "sessions: handle_input returns Result<Vec<_>, _>, so results gathered earlier in the failing call are necessarily discarded; asserted: the failing call is the one containing the byte at which byte-by-byte delivery fails, and every earlier call returns exactly the byte-by-byte results of its byte range",
@@ -405,6 +428,7 @@ pub fn spec() -> PropSpec {
                 let src = prop_oneof![gen::msg_seq_large(5).prop_map(Source::Library), gen::foreign_ops_large(5).prop_map(Source::Foreign)];
                 (src, prop_oneof![3 => Just(Vec::new()), 1 => proptest::collection::vec(mutation(), 1..3)], gen::partition_large(), gen::partition_large()).prop_map(|(source, mutations, c, d)| Case { source, mutations, c, d }).boxed()
             }, 3_000, 100_000, eval),
+            PropCheck::new("deserializer-every-two-piece-cut", |_| prop_oneof![gen::msg_seq(SeqCfg { max_ops: 5, len_cap: 300, ..SeqCfg::DEFAULT }).prop_map(Source::Library), gen::foreign_ops(5, 8, 300).prop_map(Source::Foreign)].prop_map(|source| Case { source, mutations: vec![], c: Partition::Whole, d: Partition::Whole }).boxed(), 4_000, 100_000, eval_every_cut),
             PropCheck::new("sessions", |_| session_case(), 15_000, 500_000, eval_session),
             PropCheck::new("deserializer-flood", |_| (flood_source(), gen::partition_large(), gen::partition()).prop_map(|(source, c, d)| Case { source, mutations: vec![], c, d }).boxed(), 60, 2_000, eval),
             PropCheck::new("sessions-flood", |_| (prop_oneof![(0u8..4).prop_map(Target::Server), (0u8..4).prop_map(Target::Client)], flood_source(), gen::partition_large(), gen::partition()).prop_map(|(target, source, c, d)| SessCase { target, input: Input::Mutated { source, mutations: vec![] }, c, d }).boxed(), 120, 4_000, eval_session),
